@@ -13,6 +13,9 @@ DEACTIVATORS = {'remove_ideal_voltage_sources', 'passive_network', 'short_circui
 
 
 def run(rep, prog, tier):
+    from .hidden import no_hidden_state
+    rep.rule('R06.state', 'no hidden state in the anchored modules: no function writes a module-level object, no caching decorator / cached property')
+    no_hidden_state(rep, 'R06.state', prog, ['Network/NodalAnalysis/node_analysis.py', 'Network/NodalAnalysis/bias_point_analysis.py', 'Network/equivalent_sources.py', 'Network/transformers.py', 'Circuit/impedance.py'])
     rep.rule('R06.space', 'the inverted matrix, the re-referenced network and the looked-up node index derive from the same binding; after pruning rows/columns the node is located in the pruned layout (index-space typing)')
     rep.rule('R06.typestate', 'the matrix whose inverse is read as the port impedance has its ideal voltage sources shorted: the full MNA coefficient matrix, or a nodal matrix of a network that went through the voltage-source deactivation')
     rep.rule('R06.shape', 'identical nodes and nodes across an ideal voltage source return 0 before any matrix work; the pair is swapped when the first node is the reference; element_impedance removes the element and passes its own terminals')
@@ -153,8 +156,8 @@ def formulas(rep, prog):
         g = ci.defs.get(fn)
         if not isinstance(g, ast.FunctionDef):
             rep.ob('R06.formulas', fn, None, 'function not found'); continue
-        r = [n for n in ast.walk(g) if isinstance(n, ast.Return)]
-        v = r[0].value if r else None
+        from ..prog import returned_expr
+        v = returned_expr(g)
         ok = (isinstance(v, ast.Attribute) and v.attr == 'real' and isinstance(v.value, ast.Subscript) and isinstance(v.value.slice, ast.Constant) and v.value.slice.value == 0
               and isinstance(v.value.value, ast.Call) and ast.unparse(v.value.value.func) == inner and any(k.arg == 'w' and 'array([0])' in ast.unparse(k.value) for k in v.value.value.keywords))
         rep.ob('R06.formulas', fn, ok, f'= {ast.unparse(v) if v is not None else None}', prog.site(ci, g))
